@@ -200,6 +200,10 @@ def generate(rng, tier, idx):
                                             'dirlm:' + dirs[rng.randrange(len(dirs))], 'dirlm:',
                                             'dirkg:' + dirs[rng.randrange(len(dirs))], 'dirkg:'],
                                            rng.choice([1, 1, 2]))
+                if rng.random() < 0.3:
+                    pr['ldr_hashes'] = rng.choice([['BLAKE2B', 'SHA512'], ['SHA3_256'], ['BLAKE2S', 'SHA3_512']])
+                    if rng.random() < 0.3:
+                        pr['ldr_profile'] = rng.choice(['ebuild', 'old-ebuild'])
                 probes.append(pr)
     for d in dirs[1:]:
         if rng.random() < 0.4:
@@ -286,8 +290,16 @@ def execute(sc):
             api = op['api']
             with seam:
                 seam.begin_op(i)
+                # constructor options that only matter for updates (hash set, sorting, profile) must not weaken lookups
+                lkw = {}
+                if op.get('ldr_hashes'):
+                    lkw['hashes'] = list(op['ldr_hashes'])
+                if op.get('ldr_profile'):
+                    from gemato.profile import get_profile_by_name
+                    lkw['profile'] = get_profile_by_name(op['ldr_profile'])
+
                 def fresh_loader():
-                    m = ManifestRecursiveLoader(top_path)
+                    m = ManifestRecursiveLoader(top_path, **lkw)
                     for pre in op.get('pre', []):
                         try:
                             if pre == 'find_timestamp':
